@@ -86,6 +86,20 @@ class Origins:
             term = term[:m.start()] + d + term[m.end():]
         return term
 
+    def expand_named(self, term, rounds=3):
+        """Like expand, but also for named variables with a single definition (`let mut iter = ..; iter.next()`)."""
+        for _ in range(rounds):
+            term = self.expand(term)
+            m = re.search(r"var:([A-Za-z_]\w*(?:#\d+)?)", term)
+            if not m or re.match(r"^_\d+$", m.group(1)):
+                break
+            l = self.local_by_name(m.group(1))
+            d = self.def_term(l) if l is not None else None
+            if d is None:
+                break
+            term = term[:m.start()] + d + term[m.end():]
+        return term
+
     def place_term(self, place, depth=0):
         s = self._place_term(place, depth)
         self.types.setdefault(s, place.get("ty"))
